@@ -186,26 +186,29 @@ func (p *untypedParamBinder) Bind(request *http.Request, routeParams RouteParams
 
 	case "formData":
 		var err error
-		var mt string
 
-		mt, _, e := runtime.ContentType(request.Header)
-		if e != nil {
-			// because of the interface conversion go thinks the error is not nil
-			// so we first check for nil and then set the err var if it's not nil
-			err = e
-		}
+		// a request without a body and without a Content-Type carries no form: its formData parameters are
+		// absent (a client has nothing to send when the caller sets none of the optional fields)
+		if runtime.HasBody(request) || request.Header.Get(runtime.HeaderContentType) != "" {
+			mt, _, e := runtime.ContentType(request.Header)
+			if e != nil {
+				// because of the interface conversion go thinks the error is not nil
+				// so we first check for nil and then set the err var if it's not nil
+				err = e
+			}
 
-		if err != nil {
-			return errors.InvalidContentType("", []string{"multipart/form-data", "application/x-www-form-urlencoded"})
-		}
+			if err != nil {
+				return errors.InvalidContentType("", []string{"multipart/form-data", "application/x-www-form-urlencoded"})
+			}
 
-		if mt != "multipart/form-data" && mt != "application/x-www-form-urlencoded" {
-			return errors.InvalidContentType(mt, []string{"multipart/form-data", "application/x-www-form-urlencoded"})
-		}
+			if mt != "multipart/form-data" && mt != "application/x-www-form-urlencoded" {
+				return errors.InvalidContentType(mt, []string{"multipart/form-data", "application/x-www-form-urlencoded"})
+			}
 
-		if mt == "multipart/form-data" {
-			if err = request.ParseMultipartForm(defaultMaxMemory); err != nil {
-				return errors.NewParseError(p.Name, p.parameter.In, "", err)
+			if mt == "multipart/form-data" {
+				if err = request.ParseMultipartForm(defaultMaxMemory); err != nil {
+					return errors.NewParseError(p.Name, p.parameter.In, "", err)
+				}
 			}
 		}
 
